@@ -180,7 +180,9 @@ def real_table_classifier(table, n_classes=2, validate=False):
             return out
 
         def predict(self, X):
-            return np.arange(self.n_classes)[np.argmax(self.predict_proba(X), axis=1)]
+            # class LABELS (classes_ when the harness has set them), not column indices
+            labels = np.asarray(getattr(self, "classes_", np.arange(self.n_classes)))
+            return labels[np.argmax(self.predict_proba(X), axis=1)]
 
     m = TableClassifier(table=table, n_classes=n_classes, classes=list(range(n_classes)), validate=validate)
     CREATED.append(m)
